@@ -179,7 +179,8 @@ Definition ref_lookup_in (cs : list claim) (svlan cvlan : N) : option (str * nat
 Definition ref_lookup (cfg : config) (svlan cvlan : N) : option (str * nat) :=
   ref_lookup_in (claims cfg) svlan cvlan.
 
-(* ValidateMatchIndex: None = accepted; Some (svlan, sel, prev, name) = first collision *)
+(* collision half of ValidateMatchIndex over the parsed claims: None = no collision; Some (svlan, sel, prev, name) =
+   first collision.  The whole function is [validate_strict] below. *)
 Fixpoint validate_aux (seen : list claim) (cs : list claim) : option (N * sel * str * str) :=
   match cs with
   | [] => None
@@ -216,11 +217,12 @@ Definition c_cuts (cfg : config) : list N :=
 Definition rep (cuts : list N) (x : N) : N :=
   fold_left (fun m p => if (N.leb p x && N.ltb m p)%bool then p else m) cuts 0%N.
 
-(* ---- validation that REJECTS unparseable ranges (variant "repaired", fixes/C14_validate_rejects_malformed) ----
-   ValidateMatchIndex today skips a range whose svlan or cvlan string does not parse ([validate] above, variant
-   "defective": the candidate is accepted and the range is silently dead).  The repaired function walks the same
-   groups and ranges in the same order and returns an error at the first unparseable string or the first
-   collision, whichever comes first. *)
+(* ---- ValidateMatchIndex (since /repo 461c9d7): unparseable ranges are REJECTED ----
+   [validate] above is the collision half only: it looks at the claims, i.e. at the ranges that parse (that was the
+   whole function before 461c9d7, when a range whose svlan or cvlan string does not parse was skipped and the
+   candidate accepted).  ValidateMatchIndex walks the groups and ranges in the same order and returns an error at
+   the first unparseable string or the first collision, whichever comes first: [validate_strict].  BuildMatchIndex
+   still skips unparseable ranges ([range_claims]); after the fix no committed configuration contains one. *)
 Inductive item :=
 | IClaim (c : claim)
 | IBad (name : str) (idx : nat) (is_svlan : bool).
